@@ -72,6 +72,12 @@ def main():
         print("patch does not apply to /repo", out)
         sys.exit(2)
     results = {}
+    # the runs below rewrite evidence/<id>.json with the patched tree's outcome: put the files back afterwards
+    saved = {}
+    for pid in [ns.pid] + ns.checks.split():
+        ev = f"/verif/evidence/{pid}.json"
+        if os.path.exists(ev):
+            saved[ev] = open(ev).read()
     try:
         for pid in [ns.pid] + ns.checks.split():
             t0 = time.time()
@@ -82,6 +88,8 @@ def main():
                 results[pid]["tail"] = out[-1500:]
     finally:
         sh("git -C /repo checkout -- .")
+        for ev, text in saved.items():
+            open(ev, "w").write(text)
     meta.update({"seed_id": ns.seedid, "confirmed": ran, "checks": results, "tier": ns.tier,
                  "detected": any(r["exit"] == 1 for r in results.values())})
     json.dump(meta, open(dst + "/meta.json", "w"), indent=1)
